@@ -391,6 +391,12 @@ def rule_traverse(prog):
                 par = parents[-1] if parents else {}
                 if par.get("k") == "MethodCall" and par["m"] in PREDICATE_ADAPTORS:
                     continue
+                # a projection (`|a| &a.info`) names one part of the node for somebody else; it walks nothing
+                pb_ = hir.strip_ref(hir.strip(n["body"]))
+                while pb_.get("k") == "Field":
+                    pb_ = hir.strip_ref(hir.strip(pb_["base"]))
+                if hir.path_local(pb_) is not None and hir.strip_ref(hir.strip(n["body"])).get("k") == "Field":
+                    continue
                 for p in n["params"]:
                     for bd in hir.pat_bindings(p):
                         cands.append((bd, n["body"]))
